@@ -366,22 +366,50 @@ func checkC20(c *Ctx, r *Report) {
 	writers := []string{"(*" + swarmP + ".BlackHoleSuccessCounter).RecordResult", "(*" + swarmP + ".BlackHoleSuccessCounter).HandleRequest", resetK}
 	notRO := edgeBool(isLoadOfField(detT+".readOnly"), false)
 	nsites := 0
+	seenW := map[string]bool{}
+	covered := map[ssa.Instruction]bool{}
+	isDetMethod := func(f *ssa.Function) bool {
+		if f.Signature.Recv() == nil {
+			return false
+		}
+		_, tn := typeNameOf(f.Signature.Recv().Type())
+		return tn == "blackHoleDetector"
+	}
+	// decided in the detector's own methods, looking into the function literals they call directly and the helpers
+	// extracted from them (the !readOnly test may sit in the method, the call in a local closure)
 	for _, f := range c.FnsOfPkg(swarmP) {
-		root := c.Root(f)
-		if root.Signature.Recv() == nil {
+		if c.Root(f) != f || !isDetMethod(f) || inlinable(f) {
 			continue
 		}
-		if _, tn := typeNameOf(root.Signature.Recv().Type()); tn != "blackHoleDetector" {
+		calls := findInstrs(f, callPred(writers...))
+		if len(calls) > 0 {
+			for _, cl := range calls {
+				covered[cl] = true
+				seenW[calleeKey(cl.(ssa.CallInstruction))] = true
+			}
+			nsites += len(calls)
+			r3.guard(f, "call of a state-writing counter method", calls, "!readOnly", notRO, nil)
+		}
+	}
+	// function literals of those methods that are not called directly (handed on as values): decided in themselves
+	for _, f := range c.FnsOfPkg(swarmP) {
+		if c.Root(f) == f || !isDetMethod(c.Root(f)) {
 			continue
 		}
-		calls := findInstrsIn(f, callPred(writers...))
+		var calls []ssa.Instruction
+		for _, cl := range findInstrsIn(f, callPred(writers...)) {
+			if !covered[cl] {
+				calls = append(calls, cl)
+				seenW[calleeKey(cl.(ssa.CallInstruction))] = true
+			}
+		}
 		if len(calls) > 0 {
 			nsites += len(calls)
 			r3.guard(f, "call of a state-writing counter method", calls, "!readOnly", notRO, nil)
 		}
 	}
-	if nsites < 3 {
-		r3.Fail("blackHoleDetector: calls of state-writing counter methods", token.NoPos, fmt.Sprintf("expected at least 3 call sites (RecordResult x2, HandleRequest), found %d", nsites), "")
+	if nsites < 2 || !seenW[writers[0]] || !seenW[writers[1]] {
+		r3.Fail("blackHoleDetector: calls of state-writing counter methods", token.NoPos, fmt.Sprintf("expected RecordResult and HandleRequest call sites, found %d", nsites), "")
 	}
 	if gf := r3.need("(*" + swarmP + ".blackHoleDetector).getFilterState"); gf != nil {
 		var ro ssa.Value
@@ -455,6 +483,9 @@ func checkC20(c *Ctx, r *Report) {
 
 	// ---- R5 ---------------------------------------------------------------
 	r5 := r.Rule("C20-R5", "E3/E1", 3, "wiring: FilterAddrs applied in filterKnownUndialables; RecordResult(addr, err==nil) after every transport dial in dialAddr")
+	// the detector is consulted once per dial request: HandleRequest advances the request counter, so a second
+	// consultation turns the one probe per window into a refusal
+	r5.onlyCallers("call bhd.FilterAddrs", []string{"(*" + swarmP + ".blackHoleDetector).FilterAddrs"}, c.FnsOfPkg(swarmP), "(*"+swarmP+".Swarm).filterKnownUndialables")
 	if fk := r5.need("(*" + swarmP + ".Swarm).filterKnownUndialables"); fk != nil {
 		r5.Check(len(callsIn(fk, "(*"+swarmP+".blackHoleDetector).FilterAddrs")) == 1, "filterKnownUndialables: applies bhd.FilterAddrs", fk.Pos(), 1, "", "black-hole filter no longer applied to dial candidates", "")
 	}
